@@ -21,7 +21,9 @@ theorem runFrom_append (c : Cfg) (sk : St × Nat) (l1 l2 : List Ev) :
 theorem run_eq (c : Cfg) (evs : List Ev) : run c evs = (runFrom c ({}, 0) evs).1 := rfl
 
 def nTurns (evs : List Ev) : Nat := (evs.filter (· == .turn)).length
-def arrived (evs : List Ev) : Bytes := evs.flatMap fun e => match e with | .arrive b => b | _ => []
+/-- the bytes an event makes available on a sequential source -/
+def pieceOf : Ev → Bytes | .arrive b => b | _ => []
+def arrived (evs : List Ev) : Bytes := evs.flatMap pieceOf
 
 theorem nTurns_cons (e : Ev) (l : List Ev) :
     nTurns (e :: l) = (if e = .turn then 1 else 0) + nTurns l := by
@@ -30,7 +32,7 @@ theorem nTurns_cons (e : Ev) (l : List Ev) :
   · simp [h]; omega
   · simp [h]
 theorem arrived_cons (e : Ev) (l : List Ev) :
-    arrived (e :: l) = (match e with | .arrive b => b | _ => []) ++ arrived l := by
+    arrived (e :: l) = pieceOf e ++ arrived l := by
   simp [arrived]
 theorem arrived_append (a b : List Ev) : arrived (a ++ b) = arrived a ++ arrived b := by
   simp [arrived, List.flatMap_append]
